@@ -3,11 +3,12 @@
 Symbolic differential: both pipelines of the real classes run on the same symbolic X under one path condition and
 are compared cell by cell.
 """
-from harness import cls_ngram, cls_edgelist, cls_skipgram, C09_bpe, cls_cooc
+from harness import cls_ngram, cls_edgelist, cls_skipgram, C09_bpe, cls_cooc, cls_cooc_family
 
 
 def cases(tier):
     cs = cls_ngram.ngram_cases(tier, ["C02"]) + cls_skipgram.cases(tier, ("C02",)) + cls_edgelist.cases(tier)
     cs += [c for c in C09_bpe.cases(tier) if c.name.startswith("bpe_e2e")]
     cs += cls_cooc.cases(tier, props=("C02",))
+    cs += cls_cooc_family.cases(tier)      # multiset / timed / n-gram co-occurrence: differential without an oracle
     return cs
